@@ -22,6 +22,7 @@ type vStore struct {
 	strict      bool // flag a use of an ended transaction's handle at the moment it happens
 	useAfterEnd int // storage operations observed on handles of an ended transaction
 	writes    int
+	onReadBegin func()
 }
 
 func newVStore() *vStore {
@@ -129,7 +130,16 @@ func (s *vStore) SizeInBytes() (int64, error) { return 0, nil }
 func (s *vStore) Close() error                { return nil }
 
 func (s *vStore) Read(f func(diskstore.BucketManager) error) error {
+	snapshot := s.committed // MVCC: the transaction sees the state committed when it began
+	if s.onReadBegin != nil {
+		s.onReadBegin() // harness pause point right after the transaction began
+	}
 	ended := new(bool)
+	if true {
+		err := f(&vBM{st: s, buckets: snapshot, ended: ended, ro: true})
+		*ended = true
+		return err
+	}
 	err := f(&vBM{st: s, buckets: s.committed, ended: ended, ro: true})
 	*ended = true
 	return err
